@@ -694,6 +694,10 @@ func (fr *Frame) enterLoop(li *loopInfo, b *ssa.BasicBlock, st *State, reach str
 		t := g.sc.Fresh(fr.prefix+"loop_"+nm, g.sortOf(phi.Type()))
 		g.sc.Assume(g.typeInv(t.S, phi.Type()))
 		g.assumeOld(t, nb.S)
+		if phi.Comment == "rangeindex" {
+			// a range-over-slice index starts at -1 and only ever increments
+			g.sc.Assume("(>= " + t.S + " (- 1))")
+		}
 		havocPhi[phi] = t
 		fr.vals[phi] = t
 	}
